@@ -78,9 +78,11 @@ func (s *subPub) process() {
 			}
 			slice = append(slice, &info)
 			s.keyToNotifier.Store(info.key, slice)
+			verifApplied("sub", info.key, info.notifier)
 		case info := <-s.unsubInfoChan:
 			v, ok := s.keyToNotifier.Load(info.key)
 			if !ok {
+				verifApplied("unsub-miss", info.key, info.notifier)
 				continue
 			}
 			slice := v.([]*subInfo)
@@ -96,6 +98,7 @@ func (s *subPub) process() {
 			} else {
 				s.keyToNotifier.Store(info.key, cSlice)
 			}
+			verifApplied("unsub", info.key, info.notifier)
 		}
 	}
 }
